@@ -33,7 +33,7 @@ from ..spec import docspec
 def norm_gamma(g: dict) -> dict:
     d = {"strategy": "plain", "L": 1, "nrow": 6, "header": "explicit", "footnote": None, "source": None,
          "new_page": False, "pageby_row": "column", "pageby_header": True, "place": ["all", "last", "last"],
-         "font": 1, "size": 9, "inner_repeat": True, "heights": [1, 2, 3]}
+         "font": 1, "size": 9, "inner_repeat": True, "heights": [1, 2, 3], "group_cols_reversed": False}
     d.update(g)
     if d["strategy"] == "plain":
         d["L"] = 0
@@ -52,6 +52,7 @@ def alphabet(gamma: dict, divider: bool = False, nulls: bool = False):
     evs = [(h, gg, 0) for gg in groups for h in g["heights"]]
     if divider:
         evs += [(1, gg, 1) for gg in groups if gg not in (0, "s")]
+        evs += [(1, gg, 3) for gg in groups if gg not in (0, "s") and gg < g["L"]]
     if nulls:  # d = 2: the new value at level g is null
         evs += [(1, gg, 2) for gg in groups if gg not in (0, "s")]
     return evs
@@ -78,12 +79,19 @@ def keys_of(gamma: dict, hist):
             elif gg:
                 lv = gg - 1
                 fresh[lv] += 1
-                ordv[lv] = ordv[lv] + 1 if rep else fresh[lv]
-                isdiv[lv] = int(d)
+                if d in (1, 2):
+                    pass  # entering a divider / null group consumes no ordinal
+                elif isdiv[lv] and rep:
+                    pass  # leaving a divider / null group back to the value shown before it (x, -----, x)
+                else:
+                    ordv[lv] = ordv[lv] + 1 if rep else fresh[lv]
+                isdiv[lv] = int(d) if d in (1, 2) else 0
                 for l in range(lv + 1, L):
                     fresh[l] += 1
                     ordv[l] = 0 if rep else fresh[l]
                     isdiv[l] = 0
+                if d == 3 and lv + 1 < L:  # outer change whose innermost new value is the divider
+                    isdiv[L - 1] = 1
         rows.append(tuple((-1 if isdiv[l] == 1 else None) if isdiv[l] else ordv[l] for l in range(L)))
         subs.append(sub)
     start = []
@@ -118,6 +126,9 @@ def spec_of(gamma: dict, hist) -> dict:
         spec["page_by"] = pb
         spec["new_page"] = g["new_page"]
         spec["pageby_row"] = g["pageby_row"]
+        if g.get("group_cols_reversed") and g["L"] >= 2:
+            # the page_by columns sit in the DataFrame in the opposite order of the page_by list, after the data columns
+            spec["colorder"] = ["c0"] + [f"g{l}" for l in reversed(range(g["L"]))] + ["c1"]
     elif strat == "subline":
         spec["subline_by"] = pb  # L subline columns
     elif strat == "subline+page_by":
